@@ -99,6 +99,8 @@ class Monitor:
         self.n_samples = 0
         self.order_hash = 0
         self.reported: set[tuple] = set()
+        self.root_first: dict[str, object] = {}
+        self.consequent = 0
         # --- shadow logs
         self.shadow: list[list] = [[] for _ in names]  # LogEntry objects
         self.chains: list[list[int]] = [[] for _ in names]  # prefix ids, parallel to shadow
@@ -121,6 +123,7 @@ class Monitor:
         self.committed: dict[int, CommitRec] = {}
         self.commit_list: list[CommitRec] = []
         self.unsound_at: dict[int, set[str]] = {}
+        self.unsound_terms: dict[int, set[int]] = {}
         self.applied_at: dict[int, tuple] = {}
         self.n_applies = 0
         self.dirty = False
@@ -136,7 +139,22 @@ class Monitor:
         self.timeline: list = []
 
     # ------------------------------------------------------------------ util
-    def violate(self, oracle: str, shape: str, detail: str, witness=None):
+    def violate(self, oracle: str, shape: str, detail: str, witness=None, root: str | None = None):
+        """Report one refuting observation.
+
+        `root` names the mechanism the classifier blames.  Once a violation blamed on a root
+        has been reported in this run, later violations blamed on the same root are its
+        consequences (two leaders in a term -> diverging logs -> diverging applies ...): they
+        are attached to the first one instead of being reported under further keys.
+        """
+        if root is not None and root != "unexplained":
+            first = self.root_first.get(root)
+            if first is not None:
+                self.consequent += 1
+                cons = first.witness.setdefault("consequences", [])
+                if len(cons) < 12 and not any(c["oracle"] == oracle for c in cons):
+                    cons.append({"oracle": oracle, "shape": shape, "t": self.now_ns / 1e9, "detail": detail[:400]})
+                return
         key = (oracle, shape)
         if key in self.reported:
             return
@@ -145,6 +163,8 @@ class Monitor:
         if witness:
             w.update(witness)
         self.res.add(oracle, COMPONENT, shape, detail, w)
+        if root is not None and root != "unexplained":
+            self.root_first[root] = self.res.violations[-1]
 
     def note(self, *what):
         self.timeline.append([round(self.now_ns / 1e9, 6), *what])
@@ -329,10 +349,11 @@ class Monitor:
                 while ch_i[d] == ch_j[d]:
                     d += 1
                 ea, eb = self.shadow[i][d], self.shadow[j][d]
-                if ea.term == eb.term:
+                root = self._root(None, term, ea.term, eb.term)
+                if root != "unexplained":
+                    shape = root
+                elif ea.term == eb.term:
                     shape = "same-index-same-term-different-command"
-                    if ea.term in self.double_leader_terms:
-                        shape += ":term-had-two-leaders"
                 else:
                     shape = "same-entry-over-different-prefix"
                 self.violate(
@@ -341,6 +362,7 @@ class Monitor:
                     f"{self.names[i]} and {self.names[j]} both hold an entry (index {k}, term {term}) "
                     f"but differ at index {d + 1}: ({ea.term},{ea.command}) vs ({eb.term},{eb.command})",
                     {"index": k, "term": term, "first_diff": d + 1, "nodes": [self.names[i], self.names[j]]},
+                    root=root,
                 )
                 return
 
@@ -370,6 +392,11 @@ class Monitor:
                 f"votes granted in that term: {votes}; double voters: {dv}",
                 {"term": term, "leaders": [self.names[prev], self.names[i]], "votes": votes, "double_voters": dv},
             )
+            if self.res.violations and "term-with-two-leaders" not in self.root_first:
+                for v in self.res.violations:
+                    if v.oracle == "election-safety":
+                        self.root_first["term-with-two-leaders"] = v
+                        break
         self._check_completeness(i, term, self.commit_list)
 
     def _check_completeness(self, i, term, recs):
@@ -385,24 +412,37 @@ class Monitor:
                 have = [e.term, e.command]
             else:
                 have = None
+            root = self._root(k, rec.term, have[0] if have else None)
             self.violate(
                 "leader-completeness",
-                self._commit_shape(k, rec.term, have[0] if have else None),
+                root,
                 f"entry (index {k}, term {rec.term}, {rec.cmd}) was committed by {self.names[rec.by]} in term "
                 f"{rec.commit_term} at t={rec.t / 1e9:.6f}; leader {self.names[i]} of later term {term} holds {have} there",
                 {"index": k, "committed": [rec.term, rec.cmd], "leader": self.names[i], "leader_term": term, "leader_has": have},
+                root=root,
             )
             return
 
-    def _commit_shape(self, k, term_a, term_b) -> str:
-        """Name the mechanism behind a broken commit at index k from the recorded history."""
-        if term_a is not None and term_a == term_b and term_a in self.double_leader_terms:
-            return "entries-from-two-leaders-of-one-term"
-        causes = self.unsound_at.get(k)
+    def _root(self, k, *terms) -> str:
+        """Name the mechanism behind a broken log / commit at index k from the recorded history.
+
+        Only facts are used: (1) one of the entries involved, or the commit itself, belongs to a term
+        in which two leaders were observed; (2) a leader advanced its commit_index over k while fewer
+        than a quorum of nodes held its entry, and which acknowledgement it must have counted.
+        """
+        dl = self.double_leader_terms
+        if dl:
+            for t in terms:
+                if t is not None and t in dl:
+                    return "term-with-two-leaders"
+            rec = self.committed.get(k) if k is not None else None
+            if rec is not None and rec.commit_term in dl:
+                return "term-with-two-leaders"
+            if k is not None and self.unsound_terms.get(k, set()) & dl:
+                return "term-with-two-leaders"
+        causes = self.unsound_at.get(k) if k is not None else None
         if causes:
-            return "after-commit-counting-" + "+".join(sorted(causes))
-        if self.double_leader_terms:
-            return "after-two-leaders-in-one-term"
+            return "commit-counted-" + "+".join(sorted(causes))
         return "unexplained"
 
     # --------------------------------------------------------------- commits
@@ -413,11 +453,13 @@ class Monitor:
             sh = self.shadow[i]
             have = sh[ci].term if len(sh) > ci else None
             rec = self.committed.get(ci + 1)
+            root = self._root(ci + 1, rec.term if rec else None, have)
             self.violate(
                 "commit-index-regress",
-                self._commit_shape(ci + 1, rec.term if rec else None, have),
+                root,
                 f"{self.names[i]} commit_index went {old} -> {ci}",
                 {"node": self.names[i], "from": old, "to": ci},
+                root=root,
             )
             return
         sh = self.shadow[i]
@@ -460,6 +502,7 @@ class Monitor:
         if not causes:
             causes.add("no-ack-explains-it")
         self.unsound_at.setdefault(k, set()).update(causes)
+        self.unsound_terms.setdefault(k, set()).add(term)
         self.note("unsound-commit", self.names[L], term, k, holders, sorted(causes))
 
     # --------------------------------------------------------------- applies
@@ -481,11 +524,13 @@ class Monitor:
         if g is None:
             self.applied_at[k] = (cmd, i, eterm)
         elif g[0] != cmd:
+            root = self._root(k, g[2], eterm)
             self.violate(
                 "divergent-apply",
-                self._commit_shape(k, g[2], eterm),
+                root,
                 f"index {k}: {self.names[g[1]]} applied {g[0]!r} (term {g[2]}), {self.names[i]} applied {cmd!r} (term {eterm})",
                 {"index": k, "first": [self.names[g[1]], g[0], g[2]], "second": [self.names[i], cmd, eterm]},
+                root=root,
             )
 
     # --------------------------------------------------------------- futures
@@ -513,7 +558,7 @@ class Monitor:
             val = fut.value
             cmd = rec["cmd"]
             ok = False
-            idx = result = None
+            idx = result = root = None
             if isinstance(val, tuple) and len(val) == 2:
                 idx, result = val
                 c = self.committed.get(idx) if isinstance(idx, int) else None
@@ -527,9 +572,8 @@ class Monitor:
                     shape = "future-kept-after-entry-overwritten"
                 elif at is not None and idx == at and result == ["applied", cmd]:
                     # consistent with the node's own log and apply, but another entry was committed there first
-                    shape = "own-apply-conflicts-with-first-commit:" + self._commit_shape(
-                        idx, c.term if c else None, sh[at - 1].term
-                    )
+                    root = self._root(idx, c.term if c else None, sh[at - 1].term)
+                    shape = "own-apply-conflicts-with-first-commit:" + root
                 elif not rec["leader"]:
                     shape = "submitted-to-non-leader"
                 else:
@@ -540,6 +584,7 @@ class Monitor:
                     f"future for {cmd!r} (submitted to {self.names[i]} in term {rec['term']}, stored at index {at}) "
                     f"resolved with {val!r}; committed at index {idx}: {(c.term, c.cmd) if c else None}",
                     {"cmd": cmd, "node": self.names[i], "value": repr(val)},
+                    root=root,
                 )
         self.futures = rest
 
@@ -563,6 +608,7 @@ class Monitor:
         r.count("precursor_double_votes", sum(len(v) for v in self.double_votes.values()))
         r.count("precursor_overclaimed_match_index", self.overclaims)
         r.count("precursor_unsound_commits", len(self.unsound_at))
+        r.count("consequent_violations_folded", self.consequent)
         r.seen("delivery_order", f"{self.order_hash:x}")
         r.seen("leader_history", ",".join(f"{t}:{self.names[i]}" for t, i in sorted(self.leader_of.items()))[:120])
 
@@ -656,8 +702,15 @@ def run_cluster(case: dict, res: Result, client_factory, end_time: float | None,
     res.count("deliveries", p.n_deliveries)
     if status != "completed":
         res.inconclusive = f"engine {status}"
+    elif p.time_travel:
+        # the engine dropped an event as "in the past": the run is not the one the case describes
+        res.inconclusive = "engine discarded an event (time travel): " + str(p.time_travel[0].get("event_type"))
+        res.count("time_travel_discards", len(p.time_travel))
     return mon, status
 
 
-def client_event(t: float, client: Entity, kind: str, daemon: bool, **md) -> Event:
-    return Event(time=Instant.from_seconds(t), event_type=kind, target=client, daemon=daemon, context={"metadata": md})
+def client_event(t, client: Entity, kind: str, daemon: bool, **md) -> Event:
+    """t: seconds (float, for pre-run events) or an Instant (use `event.time + delay` inside handlers:
+    a float round trip can land one nanosecond in the past and the engine would discard the event)."""
+    when = t if isinstance(t, Instant) else Instant.from_seconds(t)
+    return Event(time=when, event_type=kind, target=client, daemon=daemon, context={"metadata": md})
